@@ -7,32 +7,25 @@
 (* the event violates.  Verdicts are total: a failing event is printed as    *)
 (* <<"FAIL", id, {clauses}>> and the run continues; <<"DONE", n>> proves      *)
 (* every event was consumed.                                                 *)
-EXTENDS Util, FA, Json, IOUtils
+EXTENDS Util, FA, Regex, JFA, JRE, Json, IOUtils
 
 Events == ndJsonDeserialize(IOEnv.EVENTS)
 
 VARIABLE l
 
------------------------------------------------------------------------------
-(* C01 *)
-JEclose(e) ==
-  LET A == FaOf(e.fa)
-  IN {c \in {"closure_is_eps_reach"} :
-        \E i \in DOMAIN e.cases :
-           ToSet(e.cases[i].res) # EClosure(A, ToSet(e.cases[i].arg))}
-
-JAcceptsAll(e) ==
-  LET A == FaOf(e.fa)
-      acc == ToSet(e.accepted)
-  IN {c \in {"accepted_iff_accepting_run"} :
-        \E w \in WordsUpTo(A.S, e.n) : (w \in acc) # NfaAccepts(A, w)}
-     \cup
-     {c \in {"accepted_words_over_alphabet"} : ~(acc \subseteq WordsUpTo(A.S, e.n))}
-
------------------------------------------------------------------------------
 Fails(e) ==
   CASE e.op = "eclose"        -> JEclose(e)
     [] e.op = "accepts_all"   -> JAcceptsAll(e)
+    [] e.op = "nfa_to_dfa"    -> JNfaToDfa(e)
+    [] e.op = "minimise"      -> JMinimise(e)
+    [] e.op = "dfa_op"        -> JDfaOp(e)
+    [] e.op = "lang_op"       -> JLangOp(e)
+    [] e.op = "nfa_op"        -> JNfaOp(e)
+    [] e.op = "iso"           -> JIso(e)
+    [] e.op = "re_accepts"    -> JReAccepts(e)
+    [] e.op = "re_simplify"   -> JReSimplify(e)
+    [] e.op = "re_to_nfa"     -> JReToNfa(e)
+    [] e.op = "dfa_to_re"     -> JDfaToRe(e)
     [] OTHER                  -> {"unknown_op"}
 
 Init == l = 1
